@@ -79,11 +79,14 @@ def generate(rng, tier):
         names = ["x.conf", "sub/y.conf", cdir + "/d2/x.conf", cdir + "/d1", cdir + "/dmiss/x.conf", "missing.conf", "", "./d1/x.conf",
                  "x:main.conf", "\\bs.conf", "C:x.conf", ".hidden", "a:b/c.conf", "\\", "z:"]
         for nm in names:
+            # errno as an earlier, survived failure may have left it (out of memory, no such file, range error)
+            if rng.random() < 0.4:
+                lines.append("ERRNO %d" % rng.choice([12, 12, 2, 34, 21]))
             lines.append("SQ 0 " + hx(nm))
         for t in ["~", "~/x", "~/", "~root", "~root/x/y", "~roo/x", "~r", "~ro", "~rootx/y", "~root/z", "~nouser/x", "~nouser", "plain", "", "a~b", "~~"] + ["~%s/f" % u for u in USERS]:
             lines.append("TE " + hx(t))
-        lines += ["PF 0 " + hx("x:main.conf"), "D 0", "PB 0 " + hx("include(\"\\\\bs.conf\")\n"), "D 0", "PF 0 " + hx("x.conf"), "D 0", "PF 0 " + hx(cdir + "/main.conf" if seq else "main.conf"), "D 0",
-                  "PB 0 " + hx("include(\"x.conf\")\n"), "D 0",
+        lines += ["ERRNO 12", "PF 0 " + hx("x:main.conf"), "D 0", "ERRNO 12", "PB 0 " + hx("include(\"\\\\bs.conf\")\n"), "D 0", "PF 0 " + hx("x.conf"), "D 0", "PF 0 " + hx(cdir + "/main.conf" if seq else "main.conf"), "D 0",
+                  "ERRNO 12", "PB 0 " + hx("include(\"x.conf\")\n"), "D 0",
                   "PB 0 " + hx("box { include(\"x.conf\") }\n"), "D 0",
                   "PB 0 " + hx("box { inner { include(\"sub/y.conf\") include(\"x.conf\") } }\n"), "D 0",
                   "PB 0 " + hx("mb t { include(\"x.conf\") }\n"), "D 0", "F 0"]
